@@ -2,6 +2,7 @@
    path of the middleware never reads the values of the six proxy headers, so
    the two-run statement is proved directly, for every environ, every header
    value and every configuration. *)
+From Coq Require Import String.
 From Coq Require Import List NArith ZArith Bool.
 From WV Require Import Lib.PyBytes Lib.PyStrProxy Model.Proxy Spec.ProxySpec Proof.ProxyDict.
 Import ListNotations.
@@ -111,8 +112,9 @@ Proof.
   intros Hp Hu.
   destruct (c15_two_runs c e (delete_proxy_headers e) peer Hp Hu (delete_agree e))
     as (o & o' & H1 & H2 & H3 & H4 & H5 & H6 & H7).
-  exists o, o'. repeat split; auto.
-  rewrite <- H3 by (apply metadata_not_proxy; auto). auto.
+  exists o, o'. split; [exact H1|]. split; [exact H2|]. split; [exact H3|]. split.
+  - intros k Hk. split; [auto|]. rewrite <- H3 by (apply metadata_not_proxy; auto). auto.
+  - exact H6.
 Qed.
 
 (* No middleware at all when neither trust nor clearing is configured. *)
@@ -127,14 +129,19 @@ Proof.
   - destruct H as (x & t & ->). reflexivity.
 Qed.
 
+Lemma c15_install c :
+  (installed c = true <-> (exists x t, trusted_proxy c = Some (x :: t)) \/ clear_untrusted c = true) /\
+  (installed c = false -> forall e, serve c e = Ok e).
+Proof. split; [apply installed_spec|intros H e; apply c15_not_installed; exact H]. Qed.
+
 (* non-vacuity: a hostile request from an untrusted peer, trust configured for another address *)
 Definition ex_cfg : config :=
-  {| trusted_proxy := Some (s2l "10.0.0.1"); trusted_proxy_count := 1%Z;
+  {| trusted_proxy := Some (s2l "10.0.0.1"%string); trusted_proxy_count := 1%Z;
      trusted_proxy_headers := Some [n_xff; n_xfproto]; clear_untrusted := true |}.
 Definition ex_env : environ :=
   [(k_remote_addr, s2l "203.0.113.9"); (k_url_scheme, s_http); (k_server_name, s2l "s");
    (k_xff, s2l "6.6.6.6"); (k_xfproto, s_https); (k_fwd, s2l "for=:80")].
 Example c15_hyps_satisfiable :
-  lookup k_remote_addr ex_env = Some (s2l "203.0.113.9") /\ peer_untrusted ex_cfg (s2l "203.0.113.9") /\
+  lookup k_remote_addr ex_env = Some (s2l "203.0.113.9"%string) /\ peer_untrusted ex_cfg (s2l "203.0.113.9"%string) /\
   serve ex_cfg ex_env = Ok [(k_remote_addr, s2l "203.0.113.9"); (k_url_scheme, s_http); (k_server_name, s2l "s")].
 Proof. split; [reflexivity|split; [split; discriminate|vm_compute; reflexivity]]. Qed.
